@@ -25,42 +25,42 @@ NA = {
 CHECKS = {
     "C11": dict(
         category="exploration",
-        text="Seeded search over write histories on the real IPSWriter (BytesIO and a real BufferedWriter over the simulated raw file, seeded buffer size, short raw writes, k-th raw write failing), judged on the bytes that reached the stream by an independent IPS reader/applier against the model 'blocks applied in write order'. The boundary family (every length around multiples of 65535 x both header settings x marker/limit addresses) is enumerated completely on every run; the rest is sampled, so a clean run is evidence, not proof.",
+        text="Seeded search over write histories on the real IPSWriter (BytesIO and a real BufferedWriter over the simulated raw file, seeded buffer size, short raw writes, the k-th raw write failing, a second writer driven in between, refusals after which the caller goes on), each writer call under the deterministic step clock, judged on the bytes that reached the stream by an independent IPS reader/applier against the model 'blocks applied in write order'. Block contents are random, uniform or run-structured. The boundary families (every length around multiples of 65535 x both header settings x marker/limit addresses; A,B,A overlap sequences) are enumerated completely on every run; the rest is sampled, so a clean run is evidence, not proof.",
         design_ref="DESIGN.md 3.1 C11",
         note="Trusts sim/ipsref.py as the definition of a standard IPS patcher; streams are assumed to honour full writes (BytesIO/BufferedWriter); concurrent writers are out of scope.",
         technique="deterministic simulation: seeded write histories + raw-write fault injection, reference IPS patcher as oracle",
     ),
     "C12": dict(
         category="exploration",
-        text="Whole-program simulation of the CLI and file APIs inside a sandboxed file system (argv, exit status, logging and the raw file layer owned by the simulator; buffer sizes, short raw I/O, stale output files, path style perturbed by seed) over the option lattice format x mapping x copier-header x defines, compared with a pristine-fork in-memory twin. Lattice points are covered systematically per program; programs are sampled.",
+        text="Whole-program simulation of the CLI and file APIs inside a sandboxed file system (argv, exit status, logging and the raw file layer owned by the simulator; buffer sizes, short raw I/O, stale output files, path style, CR LF text files, sub-directories, argv order and extra flags perturbed by seed) over the option lattice format x mapping x copier-header x defines, compared with a pristine-fork in-memory twin; the symbol file is also checked against label-definition counts derived from the program text alone. Lattice points are covered systematically per program; programs are sampled; a sample of CLI runs is repeated as a true subprocess.",
         design_ref="DESIGN.md 3.1 C12",
         note="The in-memory API run in a pristine fork is the reference; low2 is judged against the low mapping through its mirror range; only programs whose twin succeeds are judged.",
         technique="deterministic simulation: sandboxed environment + benign I/O perturbation, differential against in-memory twin",
     ),
     "C13": dict(
         category="fault_enumeration",
-        text="Generated third-party-style patches stored on the simulated disk and read through CPython's real BufferedReader with seeded buffer size and short raw reads; storage damage (EOF at every offset of small patches, boundary offsets of large ones, dropped header, flipped bytes, lost/duplicated chunks), ENOENT and EIO on the k-th read are enumerated per patch. The damaged bytes are classified independently by sim/ipsref.py.",
+        text="Generated third-party-style patches (and patches written by a816's own IPSWriter) stored on the simulated disk and read through CPython's real BufferedReader with seeded buffer size, short raw reads and pipe-like delivery; the directive is placed at every kind of assembled slot, with literal / symbol / macro-argument / reassigned deltas, included once or twice, through the in-memory API and through assemble_as_patch with and without the copier header. Storage damage (EOF at every offset of small patches, boundary offsets of large ones, dropped header, flipped bytes, lost/duplicated chunks), ENOENT and EIO on every raw read are enumerated per patch; the damaged bytes are classified independently by sim/ipsref.py.",
         design_ref="DESIGN.md 3.1 C13",
-        note="No accept/reject verdict for 'missing EOF only' and 'trailing bytes after EOF' (the statement is silent); records never overlap the host program's own output.",
+        note="No accept/reject verdict for bytes after the EOF marker (the statement is silent); a missing EOF marker counts as not well-formed; record targets never overlap the host program's own output.",
         technique="deterministic simulation: stored-file damage enumeration + buffered-reader perturbation, reference IPS reader as oracle",
     ),
     "C14": dict(
         category="fault_enumeration",
-        text="For each generated base program: every definite source-error class at every live statement slot, every I/O crash point (each raw open/read/write/close the fault-free run performed, per role, several errnos) and a failing user Writer at every block, through all five entry points; the status that crosses the API/process boundary is compared with what was injected and with what reached the disk.",
+        text="For each generated base program: ~50 definite source-error classes at the statement slots where they are errors by construction, every I/O crash point (each raw open/read/write/close the fault-free run performed, per role, several errnos) of all five entry points, a failing user Writer at every block, and a sample of failing executions repeated in the same process; the status that crosses the API/process boundary is compared with what was injected and with what reached the disk.",
         design_ref="DESIGN.md 3.1 C14",
         note="Exceptions count as failure reports; message text and the particular non-zero value are not judged; success announcements are recognised by the word 'success' on a log record below WARNING or on stdout.",
         technique="deterministic simulation: complete per-run enumeration of I/O crash points and error slots across entry points",
     ),
     "C15": dict(
         category="fault_enumeration",
-        text="Storage faults applied to the stored source and to included files (EOF at every byte offset of small files, lost/duplicated/swapped chunks, flipped bytes, NUL sectors) with the assembler run under a deterministic interpreter-step clock; a run that exceeds a budget three orders of magnitude above the fault-free run is a replayable non-termination.",
+        text="Storage faults applied to the stored source, included files, table files and patch files of valid workloads (EOF at every byte offset of small files, lost/duplicated/swapped chunks, flipped and garbage bytes, NUL sectors, single-character edits inside strings), plus seeded token soup and structured stress workloads, with the assembler run under a deterministic interpreter-step clock; a run that exceeds a budget three orders of magnitude above the fault-free run (or, for loops inside C code, a CPU-time limit) is a replayable non-termination.",
         design_ref="DESIGN.md 3.1 C15",
-        note="Exhaustive enumeration of all short token sequences is model checking and is not attempted; C-level loops (regex) are only covered by the wall-clock safety net.",
+        note="Exhaustive enumeration of all short token sequences is model checking and is not attempted; loops inside C code (regular expressions) execute no interpreter step and are judged by a CPU-time limit on the child instead of the step clock; explicit loop counts above 64 give no verdict.",
         technique="deterministic simulation: torn/damaged source enumeration under a deterministic step clock",
     ),
     "C19": dict(
         category="exploration",
-        text="Seeded histories of assemblies (valid, failing at injected crash points, custom .map, other ROM types, CLI runs, file rewrites) executed in one process before a probe; the probe's result is compared with the same probe alone in a pristine fork and repeated immediately; a sample is cross-checked in fresh interpreters under other PYTHONHASHSEED values.",
+        text="Seeded histories of assemblies (valid, failing at injected crash points, custom .map, other ROM types, CLI runs in sub-directories, the probe's own text under other layouts / defines, torn sources, long sources, file rewrites) executed in one process - working directory and interpreter settings included - before a probe; the probe's result is compared with the same probe alone in a pristine fork and repeated immediately; a sample is cross-checked in fresh interpreters under other PYTHONHASHSEED values.",
         design_ref="DESIGN.md 3.1 C19",
         note="Only public observation points are compared (return/exception, blocks, labels, output files); threads are out of scope; reuse of one Program object is not promised by the statement.",
         technique="deterministic simulation: seeded operation histories with crash injection, pristine-process reference",
